@@ -17,7 +17,7 @@ import (
 // minus its strictly decreasing edges must be acyclic.
 
 func init() {
-	register(&Rule{ID: "R02.2", Props: []string{"C02", "C13"}, Floor: 1,
+	register(&Rule{ID: "R02.2", Props: []string{"C02", "C13", "C11"}, Floor: 1,
 		Doc: "recursion descends: in every recursive cycle of the read cone each call passes a buffer no longer than the caller's, and every cycle contains a call that passes a strictly shorter one (bounds engine)",
 		Run: runR02_2})
 }
